@@ -152,10 +152,7 @@ class Engine(StmtMixin):
             self.havoc_path(mid, mctx, p)
         for cl in self.yield_clauses(c, 0):
             mid.assume(self.eval_clause(cl, mid, mctx))
-        for kk in c.yield_inv:
-            if kk != 0:
-                # any of the callee's yields may be the suspension point: use the disjunction of their invariants
-                pass
+        self.assume_some_yield(mid, c, mctx)
         mid.heap[ctx.frame.oid][gname] = z3.Concat(T_caller0, delta_mid)
         ictx = ctx.sub(spec=True)
         for cl in self.yield_clauses(mine, k):
@@ -163,6 +160,16 @@ class Engine(StmtMixin):
         # (2) completion
         st.set(ctx.frame, gname, z3.Concat(T_caller0, delta))
         return self.finish_gencall(st, ctx, fi, c, frame, old, {gname: z3.Concat(Tc0, delta)}, line)
+
+    def assume_some_yield(self, st: State, c: Contract, sctx: Ctx) -> None:
+        """The callee is suspended at one of its yields: the disjunction of the per-yield invariants holds."""
+        alts = []
+        for kk, clauses in sorted(c.yield_inv.items()):
+            if kk == 0:
+                continue
+            alts.append(z3.And(*[self.eval_clause(cl, st, sctx) for cl in clauses]) if clauses else z3.BoolVal(True))
+        if alts:
+            st.assume(z3.Or(*alts))
 
     def finish_gencall(self, st, ctx, fi, c, frame, old, specials, line):
         sctx = self.spec_ctx(fi, frame, (old, frame), specials)
@@ -173,8 +180,7 @@ class Engine(StmtMixin):
             s2 = st.clone()
             cls = self.class_by_name(cname)
             exc = self.make_exc(s2, cls, ())
-            for fn_, ft in c.exc_fields.get(cname, {}).items():
-                s2.heap[exc.oid][fn_] = self.make_symbolic(s2, ft, f"exc_{fn_}")
+            self.populate_exc(s2, exc, cname, c)
             ectx = self.spec_ctx(fi, frame, (old, frame), {**specials, "exc": exc})
             for cl in clauses:
                 s2.assume(self.eval_clause(cl, s2, ectx))
@@ -212,6 +218,7 @@ class Engine(StmtMixin):
         mctx = self.spec_ctx(fi, frame, (old, frame), {"T": z3.Concat(Tc0, dm), "pos": posm, "yielded": posm})
         for cl in self.yield_clauses(c, 0):
             mid.assume(self.eval_clause(cl, mid, mctx))
+        self.assume_some_yield(mid, c, mctx)
         mid.heap[ctx.frame.oid]["T"] = z3.Concat(T_caller0, dm)
         ictx = ctx.sub(spec=True)
         ictx.specials["pos"] = posm
